@@ -1,11 +1,11 @@
 package main
 
 import (
-	"os"
 	"bytes"
 	"errors"
 	"fmt"
 	"io"
+	"os"
 	"reflect"
 	"strconv"
 	"strings"
@@ -15,6 +15,7 @@ import (
 
 func init() {
 	ops["dec"] = opDec
+	ops["dec2"] = opDec2
 	ops["enc"] = opEnc
 	ops["rt4"] = opRt4
 	ops["canon"] = opCanon
@@ -177,6 +178,41 @@ func opDec(args []string) string {
 	}
 	_, out := decodeEntry(args[0], in)
 	return out
+}
+
+func decodeInto(m *nas.Message, entry string, in *[]byte) error {
+	switch entry {
+	case "plain":
+		return m.PlainNasDecode(in)
+	case "gmm":
+		return m.GmmMessageDecode(in)
+	case "gsm":
+		return m.GsmMessageDecode(in)
+	}
+	return errors.New("bad entry")
+}
+
+// dec2 <entry> <hexA> <hexB>: decode A, then B, into the SAME Message (callers that recycle a Message). Within one family the
+// decoder starts from a fresh family struct, so the outcome must be that of decoding B into a fresh Message. (Across families
+// the other family's pointer is left as it was: outside C05's quantifier, which is over inputs; such pairs are not an op.)
+func opDec2(args []string) string {
+	if len(args) != 3 || (args[0] != "plain" && args[0] != "gmm" && args[0] != "gsm") {
+		return "bad-op"
+	}
+	a, ok1 := unhex(args[1])
+	b, ok2 := unhex(args[2])
+	if !ok1 || !ok2 {
+		return "bad-op"
+	}
+	if args[0] == "plain" && (len(a) == 0 || len(b) == 0 || a[0] != b[0]) {
+		return "bad-op"
+	}
+	m := nas.NewMessage()
+	_ = decodeInto(m, args[0], &a)
+	if err := decodeInto(m, args[0], &b); err != nil {
+		return "err " + errClass(err)
+	}
+	return "ok " + showNas(m)
 }
 
 type ieSpec struct {
